@@ -13,6 +13,7 @@ CONSTANTS
   Record = TRUE
   Defect_NoArmOnSync = FALSE
   Defect_TakeoverKeepsOrigin = FALSE
+  Defect_EchoRemovesFlipped = FALSE
   Defect_ClientSetBeforeOwner = FALSE
 INVARIANTS ExportBehaviour
 CHECK_DEADLOCK FALSE
